@@ -105,6 +105,8 @@ func runC02(p *core.Program, r *core.Report) {
 		{"sort", "Sort re-inserts every entry"}, {"index", "bucket indices non-negative"}} {
 		r.Rule("C02.backing."+sfx.s, "the linked maps that back MapValue/IntMapValue keep every decoded entry retrievable: "+sfx.doc+" (C09's rule table on those two types)", 2)
 	}
+	r.Rule("C02.width", "a payload written without a length and read back with a fixed one has that width wherever it is stored (Write emits exactly what Read consumes)", 1)
+	rawWidthInvariant(p, r, "C02.width", "lang/value")
 	r.Rule("C02.in-place", "decoders store what they read into the container itself (no decode into a range copy, no append after a full-length make)", 10)
 	decodeInPlace(p, x, r, "C02.in-place", []string{"lang/value"})
 	reg := checkRegistry(p, r, "C02.registry", "lang/value", "CreateValue", "Value", "GetValueType")
